@@ -4,6 +4,7 @@ import Pyunicorn.Model.SurrogatesKernel
 import Pyunicorn.Model.SurrogatesKernelW
 import Pyunicorn.Model.SurrogatesObject
 import Pyunicorn.Model.SurrogatesMethod
+import Pyunicorn.Model.SurrogatesArgsort
 import Pyunicorn.Model.SurrogatesCoupling
 import Pyunicorn.Model.SurrogatesWalkK
 import Pyunicorn.Generated.StructC15
@@ -142,6 +143,8 @@ def answer (toks : List String) : String :=
   | ["cnsfacts"] =>
       s!"{Pyunicorn.Generated.StructC15.cnsMirrorAxis} {Pyunicorn.Generated.StructC15.cnsInPlace}"
   | ["rankof_model", s] => if decide (RankOf (rats s) (ranks (rats s))) then "1" else "0"
+  | ["isargsort", s, p] => if decide (IsArgsort (rats s) (nats p)) then "1" else "0"
+  | ["isargsortnat", p, q] => if decide (IsArgsortNat (nats p) (nats q)) then "1" else "0"
   | ["rankof", s, idx] => if decide (RankOf (rats s) (nats idx)) then "1" else "0"
   | ["wrap", bits, x] => toString (wrapInt bits.toNat! ((ints x).headD 0))
   | ["white", d, p] => showOpt (showMat showRats) (whiteNoise (matOf rats d) (matOf nats p))
